@@ -138,6 +138,11 @@ def _convert(item):
     if os.path.exists(p):
         os.remove(p)
     seed = par.G['seed']
+    # every other point: the output path already holds an earlier result, which a refused request must not touch
+    marker = b'earlier output ' * 40 if (n + d + sum(s)) % 2 == 0 else None
+    if marker is not None:
+        with open(p, 'wb') as f:
+            f.write(marker)
     try:
         if dim == 3:
             # asymmetric extents whose padded products differ when two blockshape entries are exchanged
@@ -154,7 +159,11 @@ def _convert(item):
     except BaseException as e:
         if isinstance(e, (KeyboardInterrupt, SystemExit, MemoryError)):
             raise
-        left = os.path.exists(p) and os.path.getsize(p) > 0
+        if marker is None:
+            left = os.path.exists(p)            # an empty file is an output too
+        else:
+            with open(p, 'rb') as f:
+                left = f.read() != marker
         if os.path.exists(p):
             os.remove(p)
         return {'outcome': 'raise', 'exc': type(e).__name__, 'output_left': left}
@@ -170,6 +179,14 @@ def _convert(item):
                 with SgzReader(p) as r:
                     last = r.gen_trace_header(src3.shape[0] * src3.shape[1] - 1)
                     hdr_ok = (int(last[segyio.TraceField.INLINE_3D]), int(last[segyio.TraceField.CROSSLINE_3D])) == (src3.shape[0] - 1, src3.shape[1] - 1)
+                    # the other access paths agree with the volume (every trace; first, middle and last line each way; one z-slice)
+                    vol = r.read_volume()
+                    ni_, nx_, nz_ = vol.shape
+                    paths = all(np.array_equal(r.get_trace(t), vol[t // nx_, t % nx_]) for t in range(ni_ * nx_))
+                    paths = paths and all(np.array_equal(r.read_inline(i), vol[i]) for i in {0, ni_ // 2, ni_ - 1})
+                    paths = paths and all(np.array_equal(r.read_crossline(x), vol[:, x]) for x in {0, nx_ // 2, nx_ - 1})
+                    paths = paths and np.array_equal(r.read_zslice(nz_ - 1), vol[:, :, nz_ - 1])
+                    ok = ok and paths
         return {'outcome': 'file', 'faithful': bool(ok), 'rate': str(meta['rate']), 'b': F['b'], 'H': H, 'n': list(src3.shape), 'headers_ok': hdr_ok}
     except BaseException as e:
         if isinstance(e, (KeyboardInterrupt, SystemExit, MemoryError)):
